@@ -16,10 +16,12 @@ EXTENDS Integers, Sequences, FiniteSets, TLC, Json
 
 CONSTANTS Tokens,     \* set of character sequences; a pattern is a concatenation of at most MaxTok of them
           MaxTok,
+          Shard, NShards,   \* the patterns are divided over NShards TLC runs by a hash of their first two tokens
           EmitFrom,   \* patterns with fewer tokens are extended but not emitted
-          Subjects,   \* set of character sequences
-          Univ,       \* every character a subject may contain (printable ASCII, no space)
-          Bat         \* which calls are made per case: "full" | "core"
+          FullUpTo,   \* patterns of at most this many tokens get the long battery and the subjects Subjects
+          TokensLong, \* the tokens of longer patterns (a subset of Tokens)
+          Subjects, SubjectsLong,   \* sets of character sequences
+          Univ        \* every character a subject may contain (printable ASCII, no space)
 
 VARIABLES pat       \* sequence of tokens, or Sink
 
@@ -38,10 +40,13 @@ AsciiSeq == <<"!","\"","#","$","%","&","'","(",")","*","+",",","-",".","/","0","
               ":",";","<","=",">","?","@","A","B","C","D","E","F","G","H","I","J","K","L","M","N","O","P","Q","R",
               "S","T","U","V","W","X","Y","Z","[","\\","]","^","_","`","a","b","c","d","e","f","g","h","i","j","k",
               "l","m","n","o","p","q","r","s","t","u","v","w","x","y","z","{","|","}","~">>
-Ord == [c \in {AsciiSeq[i] : i \in 1..Len(AsciiSeq)} |-> CHOOSE i \in 1..Len(AsciiSeq) : AsciiSeq[i] = c]
+Ord == TLCEval([c \in {AsciiSeq[i] : i \in 1..Len(AsciiSeq)} |-> CHOOSE i \in 1..Len(AsciiSeq) : AsciiSeq[i] = c])
+Code(c) == Ord[c] + 32                       \* the ASCII code
+Codes(cs) == [j \in 1..Len(cs) |-> Code(cs[j])]
 
 ASSUME Univ \subseteq DOMAIN Ord
-ASSUME \A s \in Subjects : \A i \in 1..Len(s) : s[i] \in Univ
+ASSUME \A s \in Subjects \cup SubjectsLong : \A i \in 1..Len(s) : s[i] \in Univ
+ASSUME TokensLong \subseteq Tokens
 
 (* ----------------------------------------------------------------------- *)
 (* character classes (6.4.1 "Character Class"), as subsets of U            *)
@@ -62,7 +67,9 @@ ClassSetL(x) ==
     [] x = "x" -> Univ \cap HexDigits
 ClassSet(x) == IF x \in ClassLower THEN ClassSetL(x) ELSE U \ ClassSetL(ClassUpper[x])
 
-Bad(strict) == [st |-> "bad", strict |-> strict]
+(* why a pattern is malformed: an index into BadReasons *)
+BadReasons == <<"missing-]", "ends-with-%", "unfinished-capture", "unmatched-)", "%b-without-two-chars", "%f-without-set", "bad-capture-index">>
+Bad(why, strict) == [st |-> "bad", why |-> why, strict |-> strict]
 Undef == [st |-> "undef", strict |-> FALSE]
 
 (* [set]: the union of its elements: ranges x-y, classes %x, escaped and plain characters; [^set] the complement. *)
@@ -70,10 +77,10 @@ Undef == [st |-> "undef", strict |-> FALSE]
 (* as a plain character; the manual does not say).  Returns [st, set, next, strict].                            *)
 RECURSIVE SetElems(_, _, _, _, _)
 SetElems(p, j, first, acc, strict) ==
-  IF j > Len(p) THEN Bad(TRUE)                                         \* missing "]"
+  IF j > Len(p) THEN Bad(1, TRUE)                                      \* missing "]"
   ELSE IF p[j] = "]" /\ ~first THEN [st |-> "ok", set |-> acc, next |-> j + 1, strict |-> strict]
   ELSE IF p[j] = "%" THEN
-    IF j + 1 > Len(p) THEN Bad(TRUE)
+    IF j + 1 > Len(p) THEN Bad(1, TRUE)
     ELSE LET x == p[j + 1] IN
          IF x \in ClassLetters THEN
             \* "the interaction between ranges and classes is not defined": %a-z
@@ -99,7 +106,7 @@ Single(p, i) ==
   LET c == p[i] IN
   CASE c = "." -> [st |-> "ok", set |-> U, next |-> i + 1, strict |-> TRUE]
     [] c = "[" -> ParseSet(p, i)
-    [] c = "%" -> IF i + 1 > Len(p) THEN Bad(TRUE)                      \* pattern ends with "%"
+    [] c = "%" -> IF i + 1 > Len(p) THEN Bad(2, TRUE)                   \* pattern ends with "%"
                   ELSE LET x == p[i + 1] IN
                        IF x \in ClassLetters THEN [st |-> "ok", set |-> ClassSet(x), next |-> i + 2, strict |-> TRUE]
                        ELSE IF x \notin Alnum THEN [st |-> "ok", set |-> {x}, next |-> i + 2, strict |-> TRUE]
@@ -115,7 +122,7 @@ Range(f) == {f[i] : i \in DOMAIN f}
 RECURSIVE PItems(_, _, _, _, _, _, _, _)
 PItems(p, i, items, ncap, open, posc, as, strict) ==
   LET n == Len(p)
-      Done(ae) == IF open # <<>> THEN Bad(TRUE)                         \* unfinished capture
+      Done(ae) == IF open # <<>> THEN Bad(3, TRUE)                      \* unfinished capture
                   ELSE [st |-> "ok", items |-> items, ncap |-> ncap, as |-> as, ae |-> ae, strict |-> strict]
   IN
   IF i > n THEN Done(FALSE)
@@ -125,21 +132,21 @@ PItems(p, i, items, ncap, open, posc, as, strict) ==
          THEN PItems(p, i + 2, Append(items, [t |-> "pos", n |-> ncap + 1]), ncap + 1, open, posc \cup {ncap + 1}, as, strict)
          ELSE PItems(p, i + 1, Append(items, [t |-> "open", n |-> ncap + 1]), ncap + 1, <<ncap + 1>> \o open, posc, as, strict)
     [] c = ")" ->
-         IF open = <<>> THEN Bad(TRUE)
+         IF open = <<>> THEN Bad(4, TRUE)
          ELSE PItems(p, i + 1, Append(items, [t |-> "close", n |-> Head(open)]), ncap, Tail(open), posc, as, strict)
     [] c = "$" /\ i = n -> Done(TRUE)
     [] c = "%" /\ i < n /\ p[i + 1] = "b" ->
-         IF i + 3 > n THEN Bad(TRUE)                                    \* %b needs two characters
+         IF i + 3 > n THEN Bad(5, TRUE)                                 \* %b needs two characters
          ELSE PItems(p, i + 4, Append(items, [t |-> "bal", x |-> p[i + 2], y |-> p[i + 3]]), ncap, open, posc, as,
                      strict /\ p[i + 2] # p[i + 3])                     \* "two distinct characters"
     [] c = "%" /\ i < n /\ p[i + 1] = "f" ->
-         IF i + 2 > n \/ p[i + 2] # "[" THEN Bad(TRUE)                  \* %f needs a [set]
+         IF i + 2 > n \/ p[i + 2] # "[" THEN Bad(6, TRUE)               \* %f needs a [set]
          ELSE LET r == ParseSet(p, i + 2) IN
               IF r.st # "ok" THEN r
               ELSE PItems(p, r.next, Append(items, [t |-> "front", set |-> r.set]), ncap, open, posc, as, strict /\ r.strict)
     [] c = "%" /\ i < n /\ p[i + 1] \in Digit ->
          LET k == DigitVal[p[i + 1]] IN
-         IF k = 0 \/ k > ncap \/ k \in Range(open) THEN Bad(k # 0)      \* no such capture, or still open
+         IF k = 0 \/ k > ncap \/ k \in Range(open) THEN Bad(7, k # 0)   \* no such capture, or still open
          ELSE PItems(p, i + 2, Append(items, [t |-> "ref", n |-> k]), ncap, open, posc, as,
                      strict /\ k \notin posc)                           \* %n of a position capture: manual silent
     [] OTHER ->
@@ -216,18 +223,16 @@ Up(P, s, i, pos, k, hi, caps) ==
 MatchAt(P, s, k) == M(P, s, 1, k, [j \in 1..P.ncap |-> [b |-> 0, e |-> -1]])
 
 (* ----------------------------------------------------------------------- *)
-(* values and their rendering (the check makes the Lua side print the same) *)
-(* everything that is emitted is a sequence of one-character strings (the check joins them): TLC interns every *)
-(* string it builds in a global table, which serialises the workers                                            *)
-DigitStr == <<"0", "1", "2", "3", "4", "5", "6", "7", "8", "9">>
-NumChars(n) == IF n < 0 THEN <<"-", DigitStr[1 - n]>> ELSE IF n < 10 THEN <<DigitStr[n + 1]>> ELSE <<DigitStr[(n \div 10) + 1], DigitStr[(n % 10) + 1]>>
+(* Lua values: a string (sequence of one-character strings) or an integer.  What is emitted consists of       *)
+(* integers only (no string is built: TLC interns every string in a global table, and the bridge has to       *)
+(* unescape every quote): a Lua integer n is the JSON integer n, a Lua string is the JSON array of its        *)
+(* character codes; the check prints them as #n and 'text'.                                                    *)
 Sub(s, b, e) == SubSeq(s, b + 1, e)                          \* offsets b..e
-(* a Lua value: a string (character sequence) or an integer *)
+NotDet == <<-1>>      \* emitted in place of a result the manual does not determine: the call is only required to return
+Err == <<-2>>         \* emitted in place of a result: the call raises an error
 StrV(cs) == [k |-> "s", v |-> cs]
 IntV(n) == [k |-> "i", v |-> n]
-RenderV(x) == IF x.k = "i" THEN <<"#">> \o NumChars(x.v) ELSE <<"'">> \o x.v \o <<"'">>
-RECURSIVE RenderL(_)
-RenderL(vs) == IF vs = <<>> THEN <<>> ELSE IF Len(vs) = 1 THEN RenderV(vs[1]) ELSE RenderV(vs[1]) \o <<",">> \o RenderL(Tail(vs))
+Js(vs) == [j \in 1..Len(vs) |-> IF vs[j].k = "i" THEN vs[j].v ELSE Codes(vs[j].v)]   \* what is emitted for a list of values
 
 CapVal(s, c) == IF c.e = -2 THEN IntV(c.b + 1) ELSE StrV(Sub(s, c.b, c.e))
 CapVals(P, s, m) == [j \in 1..P.ncap |-> CapVal(s, m.caps[j])]
@@ -235,38 +240,43 @@ Whole(s, k, m) == Sub(s, k, m.e)
 (* "if the pattern has no captures, the whole match" *)
 CapsOrWhole(P, s, k, m) == IF P.ncap = 0 THEN <<StrV(Whole(s, k, m))>> ELSE CapVals(P, s, m)
 
-(* init: default 1, negative counts from the end; corrected into 1..; beyond len+1 there is no match *)
-StartOf(init, len) == IF init > 0 THEN init - 1 ELSE IF init = 0 \/ init < -len THEN 0 ELSE len + init
+(* init: default 1, negative counts from the end; corrected into 1..; beyond len+1 there is no match.        *)
+(* Offsets 0..len are search starts, len+1 stands for every start beyond the end.                             *)
+StartOf(init, len) ==
+  LET k == IF init > 0 THEN init - 1 ELSE IF init = 0 \/ init < -len THEN 0 ELSE len + init
+  IN IF k > len THEN len + 1 ELSE k
 
-(* first offset >= k0 where the pattern matches (only k0 itself when anchored), or -1.  A is the table of MatchAt. *)
+(* first offset >= k where the pattern matches (only k itself when anchored), or -1.  A is the table of MatchAt. *)
 RECURSIVE FirstFrom(_, _, _, _)
 FirstFrom(A, P, k, len) == IF k > len THEN -1 ELSE IF A[k].ok THEN k ELSE IF P.as THEN -1 ELSE FirstFrom(A, P, k + 1, len)
 
-FindR(A, P, s, init) ==
-  LET k0 == StartOf(init, Len(s))
-      k == IF k0 > Len(s) THEN -1 ELSE FirstFrom(A, P, k0, Len(s))
-  IN IF k < 0 THEN <<"N">> ELSE RenderL(<<IntV(k + 1), IntV(A[k].e)>> \o CapVals(P, s, A[k]))
-MatchR(A, P, s, init) ==
-  LET k0 == StartOf(init, Len(s))
-      k == IF k0 > Len(s) THEN -1 ELSE FirstFrom(A, P, k0, Len(s))
-  IN IF k < 0 THEN <<"N">> ELSE RenderL(CapsOrWhole(P, s, k, A[k]))
+(* string.find / string.match searching from offset k0: <<>> is nil *)
+FindFrom(A, F, P, s, k0) ==
+  IF k0 > Len(s) \/ F[k0] < 0 THEN <<>>
+  ELSE LET k == F[k0] IN <<k + 1, A[k].e>> \o Js(CapVals(P, s, A[k]))
+MatchFrom(A, F, P, s, k0) ==
+  IF k0 > Len(s) \/ F[k0] < 0 THEN <<>> ELSE Js(CapsOrWhole(P, s, F[k0], A[F[k0]]))
 
-(* gmatch / gsub iterate as Lua 5.4 does: try at src; a match ending where the previous match ended is not a   *)
-(* match; otherwise move one character on.                                                                      *)
+(* gmatch / gsub iterate as Lua 5.4 does: try at src; a match that ends where the previous match ended is not *)
+(* a match; otherwise move one character on.                                                                  *)
 RECURSIVE GmatchL(_, _, _, _, _, _)
 GmatchL(A, P, s, src, last, acc) ==
   IF src > Len(s) THEN acc
   ELSE IF A[src].ok /\ A[src].e # last
-       THEN GmatchL(A, P, s, A[src].e, A[src].e, Append(acc, RenderL(CapsOrWhole(P, s, src, A[src]))))
+       THEN GmatchL(A, P, s, A[src].e, A[src].e, Append(acc, Js(CapsOrWhole(P, s, src, A[src]))))
        ELSE GmatchL(A, P, s, src + 1, last, acc)
-RECURSIVE Join(_, _)
-Join(ss, sep) == IF ss = <<>> THEN <<>> ELSE IF Len(ss) = 1 THEN ss[1] ELSE ss[1] \o sep \o Join(Tail(ss), sep)
 (* for gmatch "a '^' at the start of a pattern does not work as an anchor": what it does instead is not said *)
-GmatchR(A, P, s, init) ==
-  LET k0 == StartOf(init, Len(s)) IN
-  IF P.as THEN <<"?">> ELSE <<"[">> \o Join(GmatchL(A, P, s, k0, -1, <<>>), <<";">>) \o <<"]">>
+GmatchFrom(A, P, s, k0) == IF P.as THEN NotDet ELSE GmatchL(A, P, s, k0, -1, <<>>)
 
-(* replacement strings: %0 whole match, %1..%9 captures, %% a percent sign; anything else after % is an error *)
+(* rendering of values inside replacement results of the function / table variants *)
+DigitStr == <<"0", "1", "2", "3", "4", "5", "6", "7", "8", "9">>
+NumChars(n) == IF n < 10 THEN <<DigitStr[n + 1]>> ELSE <<DigitStr[(n \div 10) + 1], DigitStr[(n % 10) + 1]>>
+RenderV(x) == IF x.k = "i" THEN <<"#">> \o NumChars(x.v) ELSE <<"'">> \o x.v \o <<"'">>
+RECURSIVE RenderL(_)
+RenderL(vs) == IF vs = <<>> THEN <<>> ELSE IF Len(vs) = 1 THEN RenderV(vs[1]) ELSE RenderV(vs[1]) \o <<",">> \o RenderL(Tail(vs))
+
+(* replacement strings: %0 whole match, %1..%9 captures (%1 the whole match when there are no captures),      *)
+(* %% a percent sign; anything else after % is an error                                                       *)
 RECURSIVE Expand(_, _, _, _, _, _)
 Expand(r, j, P, s, k, m) ==        \* returns [ok, str]
   IF j > Len(r) THEN [ok |-> TRUE, str |-> <<>>]
@@ -281,9 +291,9 @@ Expand(r, j, P, s, k, m) ==        \* returns [ok, str]
                 ELSE LET cv == CapVal(s, m.caps[DigitVal[x]]) IN IF cv.k = "i" THEN NumChars(cv.v) ELSE cv.v
        IN IF ~good \/ ~t.ok THEN [ok |-> FALSE] ELSE [ok |-> TRUE, str |-> v \o t.str]
 
-(* the replacement for one match; kinds: <<"str", template>>, "fn", "tbl".                                     *)
+(* the replacement for one match; kinds: <<"str", template>>, <<"fn">>, <<"tbl">>.                             *)
 (* fn: function(...) if (...) == "a" then return nil end return "{" .. render(...) .. "}" end                  *)
-(* tbl: a table whose __index does the same with the key (first capture, or the whole match)                  *)
+(* tbl: a table whose __index does the same with its key (first capture, or the whole match) but yields false *)
 (* a false/nil result keeps the match.  Returns [ok, str]                                                      *)
 ReplOf(kind, P, s, k, m) ==
   IF kind[1] = "str" THEN Expand(kind[2], 1, P, s, k, m)
@@ -303,61 +313,94 @@ GsubL(A, P, s, kind, src, last, n, max, acc) ==       \* returns [ok, str, n]
          ELSE GsubL(A, P, s, kind, A[src].e, A[src].e, n + 1, max, acc \o r.str)
   ELSE IF src < Len(s) /\ ~P.as THEN GsubL(A, P, s, kind, src + 1, last, n, max, Append(acc, s[src + 1]))
   ELSE fin
-(* without the optional n every occurrence is replaced (there are at most Len(s) + 1) *)
-GsubR(A, P, s, kind, max) ==
-  LET r == GsubL(A, P, s, kind, 0, -1, 0, max, <<>>) IN
-  IF r.ok THEN RenderL(<<StrV(r.str), IntV(r.n)>>) ELSE <<"E">>
+(* <<result, count>>, or Err.  Without the optional n every occurrence is replaced (at most len+1).             *)
+(* NotDet: the manual does not say what %1 stands for when the pattern has no captures                         *)
+UsesCap(kind) == kind[1] = "str" /\ \E j \in 1..(Len(kind[2]) - 1) : kind[2][j] = "%" /\ kind[2][j + 1] \in (Digit \ {"0"}) /\ (j = 1 \/ kind[2][j - 1] # "%")
+GsubOf(A, P, s, kind, max) ==
+  IF P.ncap = 0 /\ UsesCap(kind) THEN NotDet
+  ELSE LET r == GsubL(A, P, s, kind, 0, -1, 0, max, <<>>) IN IF r.ok THEN <<Codes(r.str), r.n>> ELSE Err
 
 (* ----------------------------------------------------------------------- *)
-(* the battery of calls made for a subject of length len; the check builds the Lua side from this list        *)
+(* The calls made for every case with a subject of length len, and where the expected result of each is found *)
+(* in the emitted case (`at`: 0-based position in the case tuple, 1-based index there): find / match / gmatch  *)
+(* searching from offset k are at index k+1 (offset len+1: beyond the end), then the gsub variants.            *)
+(* The check builds the Lua side from this list.                                                               *)
 Inits(len) == [j \in 1..(2 * len + 4) |-> j - len - 2]                \* -len-1 .. len+2
 ReplS0 == <<"<", "%", "0", ">">>
 ReplS1 == <<"[", "%", "1", "]">>
 ReplS2 == <<"%", "%", "%", "2">>
 ReplSx == <<"%", "x">>
-Battery(len) ==
-  LET is == Inits(len) IN
-  << <<"find0">>, <<"match0">> >>
-  \o [j \in 1..Len(is) |-> <<"find", is[j]>>]
-  \o [j \in 1..Len(is) |-> <<"match", is[j]>>]
-  \o << <<"gmatch0">>, <<"gsub0", <<"str", ReplS0>>>>, <<"gsub0", <<"str", ReplS1>>>>, <<"gsub", <<"str", ReplS0>>, 1>> >>
-  \o (IF Bat = "full"
-      THEN << <<"gsub0", <<"fn">>>>, <<"gsub0", <<"tbl">>>>, <<"gsub", <<"str", ReplS0>>, 0>>, <<"gsub", <<"str", ReplS0>>, 2>>,
-              <<"gsub", <<"str", ReplS0>>, -1>>, <<"gsub0", <<"str", ReplS2>>>>, <<"gsub0", <<"str", ReplSx>>>>,
-              <<"gmatch", 2>>, <<"gmatch", -1>>, <<"gmatch", len + 2>> >>
+ReplSe == <<"x", "%">>
+(* gsub variants: <<kind, n, strict>>; n = -2: not given; strict = FALSE: that such a replacement string is an *)
+(* error is the reference implementation's choice, the manual does not say.  full: the long battery.          *)
+GsubVariants(full) ==
+  << <<<<"str", ReplS0>>, -2, TRUE>>, <<<<"str", ReplS1>>, -2, TRUE>>, <<<<"str", ReplS0>>, 1, TRUE>> >>
+  \o (IF full
+      THEN << <<<<"fn">>, -2, TRUE>>, <<<<"tbl">>, -2, TRUE>>, <<<<"str", ReplS0>>, 0, TRUE>>, <<<<"str", ReplS0>>, 2, TRUE>>,
+              <<<<"str", ReplS0>>, -1, TRUE>>, <<<<"str", ReplS2>>, -2, FALSE>>, <<<<"str", ReplSx>>, -2, FALSE>>,
+              <<<<"str", ReplSe>>, -2, FALSE>> >>
       ELSE <<>>)
-
-Expect(A, P, s, d) ==
-  CASE d[1] = "find0" -> FindR(A, P, s, 1)
-    [] d[1] = "find" -> FindR(A, P, s, d[2])
-    [] d[1] = "match0" -> MatchR(A, P, s, 1)
-    [] d[1] = "match" -> MatchR(A, P, s, d[2])
-    [] d[1] = "gmatch0" -> GmatchR(A, P, s, 1)
-    [] d[1] = "gmatch" -> GmatchR(A, P, s, d[2])
-    [] d[1] = "gsub0" -> GsubR(A, P, s, d[2], Len(s) + 1)
-    [] d[1] = "gsub" -> GsubR(A, P, s, d[2], d[3])
+GmatchInits(len, full) == IF full THEN <<2, -1, len + 2>> ELSE <<>>
+Battery(len, full) ==
+  LET is == Inits(len)
+      gi == GmatchInits(len, full)
+      gv == GsubVariants(full)
+  IN << [lua |-> <<"find">>, at |-> <<5, 1>>, strict |-> TRUE], [lua |-> <<"match">>, at |-> <<6, 1>>, strict |-> TRUE],
+        [lua |-> <<"gmatch">>, at |-> <<7, 1>>, strict |-> TRUE] >>
+     \o [j \in 1..Len(is) |-> [lua |-> <<"find", is[j]>>, at |-> <<5, StartOf(is[j], len) + 1>>, strict |-> TRUE]]
+     \o [j \in 1..Len(is) |-> [lua |-> <<"match", is[j]>>, at |-> <<6, StartOf(is[j], len) + 1>>, strict |-> TRUE]]
+     \o [j \in 1..Len(gi) |-> [lua |-> <<"gmatch", gi[j]>>, at |-> <<7, StartOf(gi[j], len) + 1>>, strict |-> TRUE]]
+     \o [j \in 1..Len(gv) |-> [lua |-> <<"gsub", gv[j][1], gv[j][2]>>, at |-> <<8, j>>, strict |-> gv[j][3]]]
 
 RECURSIVE Flatten(_)
 Flatten(ts) == IF ts = <<>> THEN <<>> ELSE ts[1] \o Flatten(Tail(ts))
 
-CaseOf(ptext, P, s) ==
-  IF P.st # "ok" THEN [p |-> ptext, s |-> s, st |-> P.st, strict |-> P.strict]
-  ELSE LET A == TLCEval([k \in 0..Len(s) |-> MatchAt(P, s, k)])
-           b == Battery(Len(s))
-       IN [p |-> ptext, s |-> s, st |-> "ok", strict |-> P.strict, nc |-> P.ncap,
-           x |-> [j \in 1..Len(b) |-> Expect(A, P, s, b[j])]]
+(* a case: <<pattern, subject, st, strict, ncap, f, m, gm, g, why, full, "c">>; st: 0 well-formed, 1 malformed,   *)
+(* 2 not a pattern the manual defines; f, m, gm are indexed by search offset + 1; full: 1 = the long battery.    *)
+(* (The trailing string keeps TLC's pretty-printer from re-formatting the line: it gives up on the escaped quote.) *)
+B2I(b) == IF b THEN 1 ELSE 0
+CaseOf(ptext, P, s, full) ==
+  IF P.st = "undef" THEN <<Codes(ptext), Codes(s), 2, 0, 0, <<>>, <<>>, <<>>, <<>>, 0, B2I(full), "c">>
+  ELSE IF P.st = "bad" THEN
+       \* a malformed pattern is an error; a search that starts beyond the end may also just fail before the
+       \* pattern is looked at (as the reference implementation does)
+       LET len == Len(s)
+           e == [k \in 1..(len + 2) |-> IF k = len + 2 THEN NotDet ELSE Err]
+       IN <<Codes(ptext), Codes(s), 1, B2I(P.strict), 0, e, e, [k \in 1..(IF full THEN len + 2 ELSE 1) |-> e[k]],
+            [j \in 1..Len(GsubVariants(full)) |-> Err], P.why, B2I(full), "c">>
+  ELSE LET len == Len(s)
+           A == TLCEval([k \in 0..len |-> MatchAt(P, s, k)])
+           F == TLCEval([k \in 0..len |-> FirstFrom(A, P, k, len)])
+           gv == GsubVariants(full)
+       IN <<Codes(ptext), Codes(s), 0, B2I(P.strict), P.ncap,
+            [k \in 1..(len + 2) |-> FindFrom(A, F, P, s, k - 1)],
+            [k \in 1..(len + 2) |-> MatchFrom(A, F, P, s, k - 1)],
+            [k \in 1..(IF full THEN len + 2 ELSE 1) |-> GmatchFrom(A, P, s, k - 1)],
+            [j \in 1..Len(gv) |-> GsubOf(A, P, s, gv[j][1], IF gv[j][2] = -2 THEN len + 1 ELSE gv[j][2])],
+            0, B2I(full), "c">>
 
+(* patterns of at most FullUpTo tokens: tokens from Tokens, subjects from Subjects, the long battery;           *)
+(* longer patterns: every token from TokensLong, subjects from SubjectsLong, the short battery                 *)
 EmitPattern(toks) ==
   LET ptext == Flatten(toks)
       P == Parse(ptext)
-  IN \A s \in Subjects : Emit(CaseOf(ptext, P, s))
+      full == Len(toks) <= FullUpTo
+  IN \A s \in (IF full THEN Subjects ELSE SubjectsLong) : Emit(CaseOf(ptext, P, s, full))
 
 Sink == << <<"DONE">> >>
-Lens == {Len(s) : s \in Subjects}
+Lens == {Len(s) : s \in Subjects \cup SubjectsLong}
+(* sharding: patterns of fewer than two tokens belong to shard 0, the others to the shard their first two tokens hash to *)
+RECURSIVE HashChars(_, _)
+HashChars(cs, j) == IF j > Len(cs) THEN 0 ELSE (Code(cs[j]) * (3 * j + 1) + HashChars(cs, j + 1)) % 1000003
+Mine(p) == IF Len(p) < 2 THEN Shard = 0 ELSE HashChars(p[1] \o <<"|">> \o p[2], 1) % NShards = Shard
 Init == /\ pat = <<>>
-        /\ \A l \in Lens : Emit([hdr |-> l, calls |-> Battery(l)])
+        /\ \A l \in Lens : \A full \in BOOLEAN : Emit([hdr |-> l, full |-> B2I(full), calls |-> Battery(l, full), bad |-> BadReasons])
+Extend(p, t) == LET q == Append(p, t) IN
+  /\ Len(q) <= FullUpTo \/ \A i \in 1..Len(q) : q[i] \in TokensLong
+  /\ Len(q) < 2 \/ Mine(q)
+  /\ pat' = q
 Next == /\ pat # Sink
-        /\ (Len(pat) >= EmitFrom => EmitPattern(pat))
-        /\ IF Len(pat) < MaxTok THEN \E t \in Tokens : pat' = Append(pat, t) ELSE pat' = Sink
+        /\ (Len(pat) >= EmitFrom /\ Mine(pat) => EmitPattern(pat))
+        /\ IF Len(pat) < MaxTok THEN \E t \in Tokens : Extend(pat, t) ELSE pat' = Sink
 Spec == Init /\ [][Next]_pat
 =============================================================================
